@@ -690,18 +690,72 @@ func runRLCase(c *core.Ctx, r *rand.Rand, id string) {
 					rc.ExtraExtensions = append(rc.ExtraExtensions, pkix.Extension{Id: oidReasonCode, Value: []byte{0x0a, 0x01, 0x09}})
 				}
 				rc.ExtraExtensions = append(rc.ExtraExtensions, e)
-				wants[i].exts = append(wants[i].exts, e)
+				wants[i].exts = append(wants[i].exts, cloneExt(e))
 			}
 			if r.IntN(4) == 0 {
 				e := pkix.Extension{Id: oidInvalidityDate, Value: tlv(tagGenTime, []byte("20200101000000Z"))}
 				rc.ExtraExtensions = append(rc.ExtraExtensions, e)
-				wants[i].exts = append(wants[i].exts, e)
+				wants[i].exts = append(wants[i].exts, cloneExt(e))
 			}
 		}
+		_ = reasonDesc
 		t.RevokedCertificates = append(t.RevokedCertificates, rc)
-		if i < 8 {
-			ed = append(ed, map[string]any{"serial": rc.SerialNumber.Text(16), "time": rc.RevocationTime.Format(time.RFC3339Nano), "reason": reasonDesc, "extra_extensions": extListDesc(rc.ExtraExtensions)})
+	}
+	// ---- aliasing between inputs: several entries share one ExtraExtensions backing array (the same slice with or
+	// without spare capacity, prefixes of one larger array, overlapping windows) and carry different non-zero reasons.
+	// What each entry supplies is captured by deep copy here, before the call.
+	var sharedArr, sharedBefore []pkix.Extension
+	if n >= 2 && r.IntN(4) == 0 {
+		k, spare, mode := r.IntN(3), r.IntN(3), r.IntN(3)
+		sharedArr = make([]pkix.Extension, k+2+spare)
+		for j := range sharedArr {
+			e := genUnknownExt(r, 8)
+			e.Id = append(asn1.ObjectIdentifier(nil), e.Id...)
+			e.Id[len(e.Id)-1] += 1000 * (j + 1) // distinct ids over the whole array
+			sharedArr[j] = e
 		}
+		if k > 0 && r.IntN(3) == 0 {
+			sharedArr[r.IntN(k)] = pkix.Extension{Id: oidReasonCode, Value: []byte{0x0a, 0x01, 0x09}} // user-supplied reason inside the shared slice
+		}
+		var windows []string
+		for i := range t.RevokedCertificates {
+			if i >= 12 && r.IntN(2) == 0 {
+				continue
+			}
+			var sl []pkix.Extension
+			switch mode {
+			case 0:
+				sl = sharedArr[:k : k+spare] // the same slice for every entry, cap - len = spare
+			case 1:
+				sl = sharedArr[:r.IntN(k+3)] // prefixes of different length, capacity reaches the end of the array
+			default:
+				off := r.IntN(3)
+				sl = sharedArr[off : off+k : off+k+r.IntN(spare+1)] // windows, possibly overlapping
+			}
+			v := 1 + (i+r.IntN(3))%10
+			t.RevokedCertificates[i].ExtraExtensions = sl
+			t.RevokedCertificates[i].ReasonCode = &v
+			w := v
+			wants[i] = want{reason: &w}
+			for _, e := range sl {
+				if !e.Id.Equal(oidReasonCode) {
+					wants[i].exts = append(wants[i].exts, cloneExt(e))
+				}
+			}
+			if i < 12 {
+				windows = append(windows, fmt.Sprintf("entry%d:len=%d,cap=%d,reason=%d", i, len(sl), cap(sl), v))
+			}
+		}
+		sharedBefore = cloneExts(sharedArr)
+		desc["aliasing"] = map[string]any{"mode": []string{"same-slice", "prefixes-of-one-array", "windows-of-one-array"}[mode], "shared_len": k, "spare": spare,
+			"array": extListDesc(sharedArr), "entries": windows}
+		c.Count("rl_with_entries_sharing_extension_storage", 1)
+	}
+	for i, rc := range t.RevokedCertificates {
+		if i >= 8 {
+			break
+		}
+		ed = append(ed, map[string]any{"serial": rc.SerialNumber.Text(16), "time": rc.RevocationTime.Format(time.RFC3339Nano), "reason": fmtIntPtr(rc.ReasonCode), "extra_extensions": extListDesc(rc.ExtraExtensions)})
 	}
 	desc["entries"] = n
 	desc["first_entries"] = ed
@@ -715,6 +769,12 @@ func runRLCase(c *core.Ctx, r *rand.Rand, id string) {
 		desc["extra_extensions"] = extListDesc(t.ExtraExtensions)
 	}
 	input := map[string]any{"template": desc}
+	tw := cloneRLTemplate(t) // what was supplied; the oracle below only looks at this copy
+	if sharedArr != nil && r.IntN(2) == 0 {
+		// the same template used twice: the second list is the one that is checked
+		desc["template_reused"] = true
+		core.Guard(func() { _, _ = x509.CreateRevocationList(detReader(r), t, issuer, k.Signer()) })
+	}
 
 	var der []byte
 	if pi := core.Guard(func() { der, err = x509.CreateRevocationList(detReader(r), t, issuer, k.Signer()) }); pi != nil {
@@ -726,6 +786,12 @@ func runRLCase(c *core.Ctx, r *rand.Rand, id string) {
 		return
 	}
 	input["der"] = core.FullHex(der)
+	// observation only (the statement is about what parses back): did the call change what the caller passed in?
+	if !sameRLTemplate(t, tw) || (sharedArr != nil && !sameExts(sharedArr, sharedBefore)) {
+		c.Count("rl_create_changed_its_input", 1)
+	} else {
+		c.Count("rl_create_left_its_input_unchanged", 1)
+	}
 	var got *x509.RevocationList
 	if pi := core.Guard(func() { got, err = x509.ParseRevocationList(der) }); pi != nil {
 		c.Violation("rl-roundtrip:parse:"+pi.Key, pi.Value+"\n"+pi.Stack, id, input)
@@ -756,8 +822,8 @@ func runRLCase(c *core.Ctx, r *rand.Rand, id string) {
 	if !got.NextUpdate.Equal(secUTC(t.NextUpdate)) {
 		viol("NextUpdate", "want %s got %s", secUTC(t.NextUpdate), got.NextUpdate)
 	}
-	if got.Number == nil || got.Number.Cmp(t.Number) != 0 {
-		viol("Number", "want %x got %x", t.Number, got.Number)
+	if got.Number == nil || got.Number.Cmp(tw.Number) != 0 {
+		viol("Number", "want %x got %x", tw.Number, got.Number)
 	}
 	if alg.Algo != 0 && got.SignatureAlgorithm != alg.Algo {
 		viol("SignatureAlgorithm", "requested %v parsed %v", alg.Algo, got.SignatureAlgorithm)
@@ -766,7 +832,7 @@ func runRLCase(c *core.Ctx, r *rand.Rand, id string) {
 		viol("RevokedCertificates", "want %d entries got %d", n, len(got.RevokedCertificates))
 	} else {
 	entries:
-		for i, w := range t.RevokedCertificates {
+		for i, w := range tw.RevokedCertificates {
 			g := got.RevokedCertificates[i]
 			if g.SerialNumber == nil || g.SerialNumber.Cmp(w.SerialNumber) != 0 {
 				viol("RevokedCertificates.SerialNumber", "entry %d: want %x got %x", i, w.SerialNumber, g.SerialNumber)
@@ -812,17 +878,17 @@ func runRLCase(c *core.Ctx, r *rand.Rand, id string) {
 	if !bytes.Contains(der, cat(derTime(t.ThisUpdate), derTime(t.NextUpdate))) {
 		viol("encoding:update-times-not-utc-zulu", "thisUpdate/nextUpdate are not encoded as %x %x", derTime(t.ThisUpdate), derTime(t.NextUpdate))
 	}
-	for i, w := range t.RevokedCertificates {
+	for i, w := range tw.RevokedCertificates {
 		if !bytes.Contains(der, cat(derInt(w.SerialNumber), derTime(w.RevocationTime))) {
 			viol("encoding:revocation-time-not-utc-zulu", "entry %d: serial %x is not followed by %x", i, w.SerialNumber, derTime(w.RevocationTime))
 			break
 		}
 	}
 	// list extensions: AKI, CRL number, then the extras verbatim
-	if len(got.Extensions) != 2+len(t.ExtraExtensions) {
-		viol("Extensions", "want %d list extensions got %v", 2+len(t.ExtraExtensions), extListDesc(got.Extensions))
-	} else if !sameExts(got.Extensions[2:], t.ExtraExtensions) {
-		viol("Extensions", "extra list extensions: want %v got %v", extListDesc(t.ExtraExtensions), extListDesc(got.Extensions[2:]))
+	if len(got.Extensions) != 2+len(tw.ExtraExtensions) {
+		viol("Extensions", "want %d list extensions got %v", 2+len(tw.ExtraExtensions), extListDesc(got.Extensions))
+	} else if !sameExts(got.Extensions[2:], tw.ExtraExtensions) {
+		viol("Extensions", "extra list extensions: want %v got %v", extListDesc(tw.ExtraExtensions), extListDesc(got.Extensions[2:]))
 	}
 	switch {
 	case bytes.Equal(got.AuthorityKeyId, issuer.SubjectKeyId):
@@ -839,8 +905,8 @@ func runRLCase(c *core.Ctx, r *rand.Rand, id string) {
 	if g, err := stdx509.ParseRevocationList(der); err != nil {
 		c.Violation("rl-differential:go-rejects:"+normErr(err), err.Error(), id, input)
 	} else {
-		if g.Number == nil || g.Number.Cmp(t.Number) != 0 {
-			c.Violation("rl-differential:Number", fmt.Sprintf("go %x template %x", g.Number, t.Number), id, input)
+		if g.Number == nil || g.Number.Cmp(tw.Number) != 0 {
+			c.Violation("rl-differential:Number", fmt.Sprintf("go %x template %x", g.Number, tw.Number), id, input)
 		}
 		if !bytes.Equal(g.AuthorityKeyId, issuer.SubjectKeyId) {
 			c.Violation("rl-differential:AuthorityKeyId", fmt.Sprintf("go reads %x from the created list, issuer SKID %x", g.AuthorityKeyId, issuer.SubjectKeyId), id, input)
@@ -870,12 +936,57 @@ func runRLCase(c *core.Ctx, r *rand.Rand, id string) {
 	c.Count("rl_created", 1)
 	c.Count("rl_entries", n)
 	c.Count("rl_sigalg:"+alg.Name, 1)
-	if n > 0 || len(t.ExtraExtensions) > 0 {
+	if n > 0 || len(tw.ExtraExtensions) > 0 {
 		c.Nontrivial(fmt.Sprint(desc))
 	}
 	if c.WantSample() && n > 0 && n < 4 {
 		c.Sample(map[string]any{"template": desc, "der": core.Hex(der)})
 	}
+}
+
+func cloneExt(e pkix.Extension) pkix.Extension {
+	return pkix.Extension{Id: append(asn1.ObjectIdentifier(nil), e.Id...), Critical: e.Critical, Value: append([]byte{}, e.Value...)}
+}
+
+func cloneExts(s []pkix.Extension) []pkix.Extension {
+	if s == nil {
+		return nil
+	}
+	o := make([]pkix.Extension, len(s))
+	for i, e := range s {
+		o[i] = cloneExt(e)
+	}
+	return o
+}
+
+func cloneRLTemplate(t *x509.RevocationList) *x509.RevocationList {
+	o := &x509.RevocationList{SignatureAlgorithm: t.SignatureAlgorithm, ThisUpdate: t.ThisUpdate, NextUpdate: t.NextUpdate, ExtraExtensions: cloneExts(t.ExtraExtensions)}
+	if t.Number != nil {
+		o.Number = new(big.Int).Set(t.Number)
+	}
+	for _, rc := range t.RevokedCertificates {
+		n := x509.RevokedCertificate{SerialNumber: new(big.Int).Set(rc.SerialNumber), RevocationTime: rc.RevocationTime, ExtraExtensions: cloneExts(rc.ExtraExtensions)}
+		if rc.ReasonCode != nil {
+			v := *rc.ReasonCode
+			n.ReasonCode = &v
+		}
+		o.RevokedCertificates = append(o.RevokedCertificates, n)
+	}
+	return o
+}
+
+func sameRLTemplate(a, b *x509.RevocationList) bool {
+	if a.SignatureAlgorithm != b.SignatureAlgorithm || !a.ThisUpdate.Equal(b.ThisUpdate) || !a.NextUpdate.Equal(b.NextUpdate) || (a.Number == nil) != (b.Number == nil) ||
+		(a.Number != nil && a.Number.Cmp(b.Number) != 0) || !sameExts(a.ExtraExtensions, b.ExtraExtensions) || len(a.RevokedCertificates) != len(b.RevokedCertificates) {
+		return false
+	}
+	for i := range a.RevokedCertificates {
+		x, y := a.RevokedCertificates[i], b.RevokedCertificates[i]
+		if x.SerialNumber.Cmp(y.SerialNumber) != 0 || !x.RevocationTime.Equal(y.RevocationTime) || fmtIntPtr(x.ReasonCode) != fmtIntPtr(y.ReasonCode) || !sameExts(x.ExtraExtensions, y.ExtraExtensions) {
+			return false
+		}
+	}
+	return true
 }
 
 func fmtIntPtr(p *int) string {
